@@ -159,7 +159,7 @@ impl Report {
             }
             return;
         }
-        if self.violations.len() < 50 {
+        if self.violations.len() < 400 && self.violations.iter().filter(|v| v.sig == sig).count() < 3 {
             self.violations.push(Violation {
                 sig: sig.to_string(),
                 what: what.to_string(),
